@@ -5,6 +5,7 @@ From Coq Require Import ZArith List Bool Lia.
 From CiwV Require Import Sx Prelude.
 From CiwV.Engine Require Import State Engine Codec.
 From CiwV.Inv Require Import Frame Conserve ConserveRun Capacity SysCap CapacityRun Clock Samples Servers NonIdle Route Blocking Horizon Journey HorizonCount.
+From CiwV.Inv Require TrackerInc.
 Import ListNotations.
 Open Scope Z_scope.
 
@@ -54,6 +55,26 @@ Definition run_jrn_real (inp : sx) : sx :=
   end.
 Theorem run_jrn_real_sound cf st hs al : jrn_b cf (an_of al) st hs = true -> Jrn cf (an_of al) st hs.
 Proof. apply jrn_b_sound. Qed.
+
+(* C17: the tracker calls the ENGINE MODEL says one event makes (TrackerInc.calls_event_step, the ghost call list the T2 theorems of
+   TrackerInc.v are about), for comparison with the calls the real engine makes to its tracker in that event (dispatch_model 41):
+   L [cfg; state; draws] -> L [L [A 0; A j; A c] | L [A 1; A j; A d; A i; A pc] | L [A 2; A j; A d; A i; A pc; A b] | L [A 3; A j; A pc; A c] ...] *)
+Definition enc_call (c : TrackerInc.call) : sx :=
+  match c with
+  | TrackerInc.Acc j k => L [A 0; A j; A k]
+  | TrackerInc.Blk j d i pc => L [A 1; A j; A d; A i; A pc]
+  | TrackerInc.Rel j d i pc b => L [A 2; A j; A d; A i; A pc; A (if b then 1 else 0)]
+  | TrackerInc.Chg j pc k => L [A 3; A j; A pc; A k]
+  end.
+Definition run_calls (inp : sx) : sx :=
+  match inp with
+  | L [c; s; d] =>
+    match dec_cfg c, dec_sim s d with
+    | Some cf, Some st => L [bit (TrackerInc.tinvc_b cf st); L (map enc_call (TrackerInc.calls_event_step cf st))]
+    | _, _ => A (-1)
+    end
+  | _ => A (-1)
+  end.
 
 (* the draws of one event are acceptable to the clock theorem: L [arr; batch; svc; unif] as in Codec *)
 Definition draws_ok_b (d : draws) : bool := forallb (fun x => 0 <=? x) (d_svc d) && forallb (fun x => 0 <=? x) (d_arr d).
